@@ -23,15 +23,20 @@
     lists; `mesh_gap_free`: no lattice point of the quadrilateral's interior is missed;
   * `triangle_translate`, `triangle_contains_translate` (exported for C07).
 
-  Not proved (the full statement is the `def .. : Prop` at the end; checked by the oracle of
-  harness/src/m_tri.rs on the real code, which the model reproduces op for op on `tri.outline`):
-  -- [V] a one-pixel outline is the union of its three edge lines (`OutlineIsEdgeLines`; the join code for stroke width 1 is a model parameter, see EG/Model/Triangle.lean): carried by correspondence + oracle only
+  * `outline_is_edge_lines`: the pixels of the one-pixel outline are exactly the pixels of the three
+    edge lines (as the code orients them: cyclically for a triangle given clockwise, in the reverse
+    cycle for a counter-clockwise one; Bresenham ties round differently in the two directions).
+
+  Every sub-claim of the triangle part is a theorem about the model. What is NOT proved is one
+  modelling step of the outline path, tied by the `tri.outline` correspondence stream only:
+  -- [V] for stroke width 1 `LineJoin::from_points` / `ThickSegment::intersection` reduce to the Bresenham intersection with the skeleton line `Line(v[i+1], v[i+2])` (model parameter `skeletonSeg`, EG/Model/Triangle.lean; the join / thick-segment code is not modelled): carried by correspondence + oracle only
 -/
 import EG.Lemmas.TrianglePoints
 import EG.Lemmas.TriangleTranslate
 import EG.Lemmas.TriangleSpan
 import EG.Lemmas.TriangleCover
 import EG.Lemmas.TriangleNear
+import EG.Lemmas.TriangleOutlineMain
 namespace EG.C19
 open EG EG.Triangle
 
@@ -317,14 +322,44 @@ example : (⟨⟨0, 0⟩, ⟨9, 2⟩, ⟨4, 6⟩⟩ : Triangle).boundingBox.InRa
   refine ⟨by decide, by decide, ?_⟩
   unfold ClosedInside cross; decide
 
-/-! ## Full-strength statement of the sub-claim that is not proved ([V]) -/
+/-! ## A one-pixel outline consists of its three edge lines -/
 
-/-- [V] A one-pixel outline consists of its three edge lines (as the code orients them: the edges
-of the `sorted_clockwise` triangle, each from its second-next to its next vertex). -/
-def OutlineIsEdgeLines : Prop := ∀ (t : Triangle) (c : Nat) (p : Pt),
-  p ∈ (t.outlinePixels c).map (·.1) ↔
-    (p ∈ Line.points ⟨t.sortedClockwise.v2, t.sortedClockwise.v3⟩ ∨
-     p ∈ Line.points ⟨t.sortedClockwise.v3, t.sortedClockwise.v1⟩ ∨
-     p ∈ Line.points ⟨t.sortedClockwise.v1, t.sortedClockwise.v2⟩)
+/-- **The pixels of `into_styled(PrimitiveStyle::with_stroke(c, 1)).pixels()` are exactly the pixels
+of the three edge lines** `Line(v2, v3)`, `Line(v3, v1)`, `Line(v1, v2)` of the `sorted_clockwise`
+triangle — for every vertex triple (colinear and coincident vertices included) whose bounding box
+is within the `i32` range. (Per row the three per-edge scanlines are merged into at most two
+pieces; nothing is lost because two of the three edges of a row always share a vertex of that row;
+no row of the bounding box is empty, so the non-fused iterators never stop early.) -/
+theorem outline_is_edge_lines (t : Triangle) (c : Nat) (h : t.boundingBox.InRange) (p : Pt) :
+    p ∈ (t.outlinePixels c).map (·.1) ↔
+      (p ∈ Line.points ⟨t.sortedClockwise.v2, t.sortedClockwise.v3⟩ ∨
+       p ∈ Line.points ⟨t.sortedClockwise.v3, t.sortedClockwise.v1⟩ ∨
+       p ∈ Line.points ⟨t.sortedClockwise.v1, t.sortedClockwise.v2⟩) :=
+  mem_outline_iff t c h p
+
+example : (⟨⟨0, 0⟩, ⟨5, 1⟩, ⟨4, 6⟩⟩ : Triangle).boundingBox.InRange := by decide
+
+/-- Which lines these are: a triangle given clockwise (positive `area_doubled`) is traversed as
+given, `v2 v3`, `v3 v1`, `v1 v2`; a counter-clockwise one with its first two vertices swapped, i.e.
+`v1 v3`, `v3 v2`, `v2 v1` — the same three edges in the opposite direction. -/
+theorem outline_lines_orientation (t : Triangle) :
+    (0 < t.areaDoubled → t.sortedClockwise = t) ∧
+    (t.areaDoubled < 0 → t.sortedClockwise = ⟨t.v2, t.v1, t.v3⟩) ∧
+    (t.areaDoubled = 0 → t.sortedClockwise = t.sortedYx) := by
+  unfold sortedClockwise
+  refine ⟨fun h => ?_, fun h => ?_, fun h => ?_⟩
+  · have h' : ¬ t.areaDoubled < 0 := by omega
+    simp only [h, h', ↓reduceIte]
+  · simp only [h, ↓reduceIte]
+  · have h1 : ¬ t.areaDoubled < 0 := by omega
+    have h2 : ¬ t.areaDoubled > 0 := by omega
+    simp only [h1, h2, ↓reduceIte]
+
+/-- The outline in closed form: rows of the bounding box top to bottom, each contributing its one
+or two pieces left to right (the iteration order of `pixels()`), every pixel with the stroke colour. -/
+theorem outline_closed_form (t : Triangle) (c : Nat) (h : t.boundingBox.InRange) :
+    t.outlinePixels c =
+      ((rowList t).flatMap (outlineRow t.sortedClockwise)).map (fun p => (p, c)) :=
+  outlinePixels_eq t c h
 
 end EG.C19
